@@ -85,6 +85,160 @@ let map_one path =
     print_newline ()
   end
 
+
+(* ---------------------------------------------------------------------------------------------
+   dev mode: runs the extracted cluster-level device model (Model/Dev.v) next to the observations of the
+   real library.  Script (one or more cases):
+     case <id>
+     cfg <bpc> <nclu> <vblocks> <backing> <v2>
+     image <path>                 initial mapping / refcounts / metadata clusters from the specification reader
+     val <block> <token>          initial non-zero content as the library read it (sweep of the fresh device)
+     begin                        -> "init inv=<b> nclu=<n> host=<H>"
+     W <off> <len> <tag> [gc=h ...]   write of len blocks at block off; gc=h: host cluster of gc after the call
+     D <off> <len>
+     R <off> <len>                -> "read v v v ..."
+     M gc=K:h ...                 mapping dump of the library -> "map ok" | "map diff <gc> model=<..> impl=<..>"
+     sync <path>                  flushed file: refcounts and metadata -> "sync ok grow=<k>" | "sync diff ..."
+     end *)
+let tok_tbl : (string, int) Hashtbl.t = Hashtbl.create 1024
+let tok_rev : (int, string) Hashtbl.t = Hashtbl.create 1024
+let () = Hashtbl.replace tok_tbl "w0" 0; Hashtbl.replace tok_rev 0 "w0"
+let intern (s : string) : n =
+  match Hashtbl.find_opt tok_tbl s with
+  | Some i -> n_of_int i
+  | None -> let i = Hashtbl.length tok_tbl in Hashtbl.replace tok_tbl s i; Hashtbl.replace tok_rev i s; n_of_int i
+let tok_str (x : n) : string = match Hashtbl.find_opt tok_rev (int_of_n x) with Some s -> s | None -> "?"
+
+let cl_str = function
+  | CUn -> "U" | CZero -> "Z" | CZeroPre h -> "Z:" ^ string_of_n h | CData h -> "D:" ^ string_of_n h
+  | CComp (h, k) -> "C:" ^ string_of_n h ^ "+" ^ string_of_n k
+
+let rec nat_of_int i = if i <= 0 then O else S (nat_of_int (i - 1))
+
+type devcase = { mutable cfg0 : (int * int * int * bool * bool) option; mutable img : string option;
+                 vals : (int, n) Hashtbl.t; mutable st : st option; mutable c : cfg option; mutable dead : bool }
+
+let load_image path (bpc, nclu, vblocks, backing, v2) vals =
+  let b = read_file path in
+  let rd = rd_of b in
+  let h = parse_hdr rd in
+  if not (hdr_supported h) then failwith "unsupported image";
+  let cs = 1 lsl (int_of_n h.h_cb) in
+  let hostn = (Bytes.length b + cs - 1) / cs in
+  let maps = List.init nclu (fun gc ->
+    let d = guest_mapping rd h (n_of_int gc) in
+    match d.d_kind, d.d_off, d.d_len with
+    | KData, Some o, _ -> CData (n_of_int (int_of_n o / cs))
+    | KZero, Some o, _ -> CZeroPre (n_of_int (int_of_n o / cs))
+    | KZero, None, _ -> CZero
+    | KCompressed, Some o, Some l ->
+        let o = int_of_n o and l = int_of_n l in
+        let base = o / cs in
+        CComp (n_of_int base, n_of_int ((o + l + cs - 1 - base * cs) / cs))
+    | _ -> CUn) in
+  let rcs = List.init hostn (fun x -> stored rd h (n_of_int x)) in
+  let gcount = Array.make hostn 0 in
+  List.iter (fun m -> for x = 0 to hostn - 1 do if touches m (n_of_int x) then gcount.(x) <- gcount.(x) + 1 done) maps;
+  let metas = List.init hostn (fun x -> int_of_n (refs rd h (n_of_int x)) > gcount.(x)) in
+  (* initial contents from the library's own sweep *)
+  let valof blk = match Hashtbl.find_opt vals blk with Some t -> t | None -> N0 in
+  let host_tbl : (int, int) Hashtbl.t = Hashtbl.create 64 in   (* host cluster -> guest cluster *)
+  List.iteri (fun gc m -> match m with CData hc -> Hashtbl.replace host_tbl (int_of_n hc) gc | _ -> ()) maps;
+  let host hc i = match Hashtbl.find_opt host_tbl (int_of_n hc) with
+    | Some gc -> valof (gc * bpc + int_of_n i) | None -> N0 in
+  let cfg = { c_bpc = n_of_int bpc; c_nclu = n_of_int nclu; c_vblocks = n_of_int vblocks; c_backing = backing; c_v2 = v2;
+              c_back = (fun blk -> valof (int_of_n blk));
+              c_comp = (fun gc i -> valof (int_of_n gc * bpc + int_of_n i)) } in
+  let ok = invb cfg maps rcs metas in
+  (cfg, mk_state maps rcs metas host, ok, hostn)
+
+let dev_mode script =
+  let ic = open_in script in
+  let cur = { cfg0 = None; img = None; vals = Hashtbl.create 64; st = None; c = None; dead = false } in
+  let reset () = cur.cfg0 <- None; cur.img <- None; Hashtbl.reset cur.vals; cur.st <- None; cur.c <- None; cur.dead <- false in
+  let hostn = ref 0 in
+  (try while true do
+    let l = String.trim (input_line ic) in
+    let t = List.filter (fun x -> x <> "") (String.split_on_char ' ' l) in
+    (match t with
+    | [] -> ()
+    | "case" :: id :: _ -> reset (); Printf.printf "case %s\n" id
+    | ["cfg"; a; b; c; d; e] -> cur.cfg0 <- Some (int_of_string a, int_of_string b, int_of_string c, d = "1", e = "1")
+    | ["image"; p] -> cur.img <- Some p
+    | ["val"; b; tk] -> Hashtbl.replace cur.vals (int_of_string b) (intern tk)
+    | ["begin"] ->
+        (match cur.cfg0, cur.img with
+         | Some g, Some p ->
+            (try let (c, s, ok, hn) = load_image p g cur.vals in
+                 cur.c <- Some c; cur.st <- Some s; hostn := hn;
+                 let (_, nclu, _, _, _) = g in
+                 Printf.printf "init inv=%d nclu=%d host=%d\n" (if ok then 1 else 0) nclu hn
+             with e -> cur.dead <- true; Printf.printf "init error=%s\n" (Printexc.to_string e))
+         | _ -> cur.dead <- true; print_string "init error=missing cfg/image\n")
+    | "end" :: _ -> print_string "end\n"
+    | _ when cur.dead -> print_string "skipped\n"
+    | "W" :: off :: len :: tag :: ch ->
+        let c = Option.get cur.c and s = Option.get cur.st in
+        let off = int_of_string off and len = int_of_string len and tag = int_of_string tag in
+        let chs = List.map (fun x -> match String.split_on_char '=' x with [g; h] -> (int_of_string g, n_of_int (int_of_string h)) | _ -> failwith "ch") ch in
+        let v blk = let b = int_of_n blk in intern (Printf.sprintf "w%x" ((tag lsl 40) lor (b land 0xffffffffff))) in
+        let chf gc = match List.assoc_opt (int_of_n gc) chs with Some h -> h | None -> n_of_int (-1 land 0x3fffffff) in
+        (match write c s (n_of_int off) (n_of_int len) v chf with
+         | Some s' -> cur.st <- Some s'; print_string "write ok\n"
+         | None ->
+            (* name the cluster whose chosen host cluster is not free in the model *)
+            let bad = List.filter (fun gc -> match s.s_map gc with CData _ | CZeroPre _ -> false | _ -> not (free s (chf gc))) (clusters_of c (n_of_int off) (n_of_int len)) in
+            let d = String.concat "," (List.map (fun gc -> Printf.sprintf "gc%s->h%s(rc=%s,meta=%b)" (string_of_n gc) (string_of_n (chf gc)) (string_of_n (s.s_rc (chf gc))) (s.s_meta (chf gc))) bad) in
+            cur.dead <- true; Printf.printf "write guard-fail %s\n" d)
+    | ["D"; off; len] ->
+        let c = Option.get cur.c and s = Option.get cur.st in
+        cur.st <- Some (discard c s (n_of_int (int_of_string off)) (n_of_int (int_of_string len))); print_string "discard ok\n"
+    | ["R"; off; len] ->
+        let c = Option.get cur.c and s = Option.get cur.st in
+        let off = int_of_string off and len = int_of_string len in
+        let vs = List.init len (fun i -> tok_str (read_block c s (n_of_int (off + i)))) in
+        Printf.printf "read %s\n" (String.concat " " vs)
+    | "M" :: ents ->
+        let c = Option.get cur.c and s = Option.get cur.st in
+        let impl = Hashtbl.create 64 in
+        List.iter (fun x -> match String.split_on_char '=' x with [g; k] -> Hashtbl.replace impl (int_of_string g) k | _ -> ()) ents;
+        let diff = ref None in
+        for gc = int_of_n c.c_nclu - 1 downto 0 do
+          let m = match s.s_map (n_of_int gc) with CComp (_, _) -> "C" | x -> cl_str x in
+          let i = match Hashtbl.find_opt impl gc with Some k -> k | None -> "U" in
+          if m <> i then diff := Some (gc, m, i)
+        done;
+        (match !diff with None -> print_string "map ok\n" | Some (gc, m, i) -> Printf.printf "map diff gc=%d model=%s impl=%s\n" gc m i)
+    | ["sync"; p] ->
+        let c = Option.get cur.c and s = Option.get cur.st in
+        let b = read_file p in
+        let rd = rd_of b in
+        let h = parse_hdr rd in
+        let cs = 1 lsl (int_of_n h.h_cb) in
+        let hn = (Bytes.length b + cs - 1) / cs in
+        let grown = ref 0 and st = ref s and msg = ref "" in
+        for x = 0 to (max hn !hostn) - 1 do
+          if !msg = "" then begin
+            let xn = n_of_int x in
+            let file_rc = int_of_n (stored rd h xn) and model_rc = int_of_n (!st.s_rc xn) in
+            if file_rc <> model_rc then begin
+              (* a cluster the file counts once, which the model holds free and which the file's own metadata
+                 references: metadata growth (L2 table, refcount block, relocated table) *)
+              if file_rc = 1 && model_rc = 0 && int_of_n (refs rd h xn) = 1 then
+                (match grow !st xn with
+                 | Some s' -> st := s'; incr grown
+                 | None -> msg := Printf.sprintf "cluster %d: file refcount 1 but not free in the model" x)
+              else msg := Printf.sprintf "cluster %d: file refcount %d, model %d (file references %d)" x file_rc model_rc (int_of_n (refs rd h xn))
+            end
+          end
+        done;
+        hostn := max hn !hostn;
+        if !msg = "" then begin cur.st <- Some !st; Printf.printf "sync ok grow=%d\n" !grown end
+        else Printf.printf "sync diff %s\n" !msg
+    | _ -> Printf.printf "bad line %s\n" l)
+  done with End_of_file -> ());
+  close_in ic
+
 let () =
   match Array.to_list Sys.argv with
   | [_; "check"; lst] ->
@@ -95,6 +249,7 @@ let () =
        done with End_of_file -> ());
       close_in ic
   | [_; "map"; img] -> map_one img
+  | [_; "dev"; script] -> dev_mode script
   | [_; "hdr"; lst] ->
       (* one hex buffer per line: the specification's reading of the header *)
       let ic = open_in lst in
